@@ -293,9 +293,14 @@ func (w *world) dumpOf(i *inst, withPeer bool) (full string, abstract string) {
 		listening[tp] = true
 	}
 	var deaf []string
-	for _, id := range p2p {
+	for _, name := range p2p {
+		// the topic of a P2P collection is named by its CollectionID
+		id := name
+		if c, err := i.n.DB.GetCollectionByName(ctx, name); err == nil {
+			id = c.Version().CollectionID
+		}
 		if !listening[id] {
-			deaf = append(deaf, id)
+			deaf = append(deaf, name)
 		}
 	}
 	sb.WriteString("P2P-NOT-LISTENING " + strings.Join(deaf, ",") + "\n")
@@ -718,6 +723,13 @@ func runCase(ctx context.Context, out *vc.Out, base string, lines []string) {
 		case "dump":
 			fa, abs := w.dump(w.real)
 			fb, _ := w.dump(w.twin)
+			if os.Getenv("VERIF_SHOWDUMP") != "" {
+				for _, ln := range strings.Split(fa+fb, "\n") {
+					if strings.HasPrefix(ln, "P2P") {
+						fmt.Fprintln(os.Stderr, "SHOWDUMP", ln)
+					}
+				}
+			}
 			w.awaitDelivered(w.twin)
 			if w.inflight {
 				w.compareTargets("inflight-push-lost-on-close")
@@ -977,6 +989,10 @@ func main() {
 		// directed: two targets with different collections, restart, then writes to both collections
 		cases = append(cases, []string{"case 2", "start", "schema K1", "schema K2", "replicator set X K1", "replicator set Y K2", "restart",
 			`create K1 d1 {"name": "v1", "n": 1}`, `create K2 d2 {"title": "v2", "k": 2}`, "dump", `update d1 {"n": 5}`, `update d2 {"k": 6}`, "dump"})
+		// directed: a P2P collection whose schema was patched before the restart (its topic is named by the collection,
+		// not by the version that is active now)
+		cases = append(cases, []string{"case 1003", "start", "schema K1", "p2pcol add K1", `create K1 d1 {"name": "v1", "n": 1}`, "patch K1 extra1", "dump", "restart", "dump",
+			`create K1 d2 {"name": "v2", "n": 2}`, "patch K1 extra2", "restart", "dump"})
 		for i := 0; i < n; i++ {
 			cr, _ := r.Fork()
 			cases = append(cases, genCase(cr, uint64(i+3)))
